@@ -25,7 +25,7 @@ import xarray as xr
 
 from harness import core
 
-GEN = ["gen_constants"]
+GEN = ["gen_constants", "gen_block_loops"]
 EXTRACT_FILES = ["X10"]
 DRIVERS = ["x10"]
 RULE = ("synthetic disparity maps, values multiples of 1/4 in [-8, 8]; shapes from {3,7,49,50,51,99,100,101,103,205} x "
@@ -53,7 +53,8 @@ ASSUMES = [
     "window does not fit in the image' (identical for odd widths)",
 ]
 TRUSTED = ["Gen/Constants.v produced by translator/gen_constants.py (ast pattern np.array_split(x, np.arange(B, n, B), axis); "
-           "pandora.constants by import)"]
+           "pandora.constants by import)",
+           "Gen/BlockLoops.v produced by translator/gen_block_loops.py (ast transliteration of the double block loop: split expressions, statements on the running offsets where they stand, slice bounds, arrays resolved to np.zeros / np.full_like / np.copy / sliding_window view / parameter expression; fail closed) and its reading as a program by Lib/BlockSkeleton.v exec (total arrays, slice writes neither clamped nor shape-checked)"]
 
 SIDE_A = [3, 7, 49, 50, 51, 99, 100, 101, 103, 205]
 SIDE_B = [3, 5, 52, 101]
@@ -632,4 +633,10 @@ def run(ctx):
             k += n
     ctx.gen_obligations = ["1 <= Gen.Constants.median_block /\\ 1 <= Gen.Constants.bilateral_block (vm_compute)",
                            "Gen.Constants.msk_pixel_interval_regularized = 2^11 /\\ Gen.Constants.msk_pixel_invalid = bits 0,1,6,7,8,9 "
-                           "(reflexivity)"]
+                           "(reflexivity)",
+                           "skeleton_wf Gen.BlockLoops.median_filter = true /\\ filter_skeleton_ok KNanMedian (offsets from int(W/2) of "
+                           "the sliding_window's own W, output = np.copy(a) and windows of that same a, nanmedian of the inner chunk) /\\ "
+                           "sk_B = Gen.Constants.median_block (C10_median_block_loop_skeleton, vm_compute)",
+                           "skeleton_wf Gen.BlockLoops.filter_bilateral = true /\\ filter_skeleton_ok KBilateral /\\ sk_B = "
+                           "Gen.Constants.bilateral_block (C10_bilateral_block_loop_skeleton, vm_compute; skeletons read by "
+                           "translator/gen_block_loops.py with ast, fail closed)"]
